@@ -1,4 +1,7 @@
 import GeoVerif.Proofs.TM
+import GeoVerif.Proofs.TMX
+import GeoVerif.Proofs.TMSeriesKernel
+import GeoVerif.Proofs.TMCoeffEval
 import GeoVerif.Proofs.TMCertGF
 import GeoVerif.Proofs.TMCertFG
 import GeoVerif.Series.AuxDecode
@@ -157,5 +160,345 @@ theorem alp_is_aux : checkAlpAux = true := by decide +kernel
 
 /-- likewise `−betcoeff` = the `χ ← μ` table -/
 theorem bet_is_aux : checkBetAux = true := by decide +kernel
+
+
+/-! ## 4. `extendp`: the wrapper does not fold (both entry points, every kernel) -/
+
+/-- **`extendp = true`, Forward**: no parity folding and no far side for *any* input — the kernel is called on `(lat, lon − lon0)` as they are
+    and its answer is only scaled (this is the convention seeded change C06F broke for `Reverse`) -/
+theorem tm_extendp_forward (c : Cfg) (hc : c.ext = true) (K : F64 → F64 → KOut) (lat d : F64) :
+    forwardD c K lat d =
+      ⟨c.scale (K lat d).q, c.scale (K lat d).p, (K lat d).gamma,
+       if c.series then MathF.angNormalize (K lat d).gamma else (K lat d).gamma, (K lat d).k * c.k0, c.scale (K lat d).p⟩ :=
+  forward_extendp c hc K lat d
+
+/-- **`extendp = true`, Reverse**: the kernel is called on `(ξ, η)` as they are (no `xisign`, no `etasign`, no far side) -/
+theorem tm_extendp_reverse (c : Cfg) (hc : c.ext = true) (K : F64 → F64 → KOut) (lon0 xi eta : F64) :
+    (reverseZ c K lon0 xi eta).u = (K xi eta).p ∧ (reverseZ c K lon0 xi eta).vraw = (K xi eta).q ∧
+    (reverseZ c K lon0 xi eta).graw = (K xi eta).gamma ∧ (reverseZ c K lon0 xi eta).k = (K xi eta).k * c.k0 :=
+  reverse_extendp c hc K lon0 xi eta
+
+/-! ## 5. exact form: the Newton inversions, for every elliptic-function kernel `Ell` (`Model/TMExact.lean`, executed by the driver
+on the values the implementation's own `EllipticFunction` objects return) -/
+open GeoVerif.TMX GeoVerif.Proofs.TMX
+
+/-- **the loop shared by `zetainv` and `sigmainv`** (any step function, any number type): it takes at most `fuel` steps and returns the
+    Newton iterate after exactly `steps` steps -/
+theorem tmx_newton_iterate {α : Type} [RealLike α] (step : Nat → α → α → α × α) (thr : α) (fuel i : Nat) (trip : Bool) (u v : α) :
+    let r := newton step thr fuel i trip u v
+    i ≤ r.steps ∧ r.steps ≤ i + fuel ∧ (r.u, r.v) = iterate step (r.steps - i) i (u, v) :=
+  newton_iterate step thr fuel i trip u v
+
+/-- **exit through the convergence test** (`if (trip) break`): iterate `m` is the first whose correction is not `≥ thr`, exactly one more
+    step was taken, `m + 2 ≤ fuel` -/
+theorem tmx_newton_break {α : Type} [RealLike α] (step : Nat → α → α → α × α) (thr : α) (fuel i : Nat) (u v : α)
+    (hb : (newton step thr fuel i false u v).brk = true) :
+    ∃ m, (newton step thr fuel i false u v).steps = i + m + 2 ∧ m + 2 ≤ fuel ∧
+      long step thr i (u, v) m = false ∧ (∀ m' < m, long step thr i (u, v) m' = true) ∧
+      ((newton step thr fuel i false u v).u, (newton step thr fuel i false u v).v) = iterate step (m + 2) i (u, v) :=
+  newton_break step thr fuel i u v hb
+
+/-- non-vacuity: a step function whose corrections vanish trips at once and leaves through the convergence test after two steps -/
+example : (newton (fun _ _ _ => ((0 : ℝ), (0 : ℝ))) (1 : ℝ) 10 0 false 5 7).brk = true ∧
+    (newton (fun _ _ _ => ((0 : ℝ), (0 : ℝ))) (1 : ℝ) 10 0 false 5 7).steps = 2 := by
+  simp [newton]
+
+/-- **exit at the cap** (silent: `GEOGRAPHICLIB_PANIC` is `false` for binary64): all `fuel` steps were taken and every correction tested
+    before the last one was `≥ thr`; `trip` at exit means the last step was the first short one -/
+theorem tmx_newton_cap {α : Type} [RealLike α] (step : Nat → α → α → α × α) (thr : α) (fuel i : Nat) (u v : α)
+    (hb : (newton step thr fuel i false u v).brk = false) :
+    (newton step thr fuel i false u v).steps = i + fuel ∧ (∀ m, m + 1 < fuel → long step thr i (u, v) m = true) ∧
+    ((newton step thr fuel i false u v).trip = true → 0 < fuel ∧ long step thr i (u, v) (fuel - 1) = false) :=
+  newton_cap step thr fuel i u v hb
+
+example : (newton (fun _ _ _ => ((1 : ℝ), (0 : ℝ))) (1 : ℝ) 3 0 false 5 7).brk = false := by simp [newton]
+
+/-- **iteration caps** (*Gen*: `numit_` is read from `TransverseMercatorExact.hpp` on every run): `zetainv` and `sigmainv` evaluate the
+    elliptic functions at most `numit_` times, for every kernel, every ellipsoid, every input, over any number type -/
+theorem tmx_iteration_cap {α : Type} [RealLike α] (f : α) (ext : Bool) (E : Ell α) (a b : α) :
+    (zetainv (mkPar f ext) E a b).1.steps ≤ Gen.TMExact.numit ∧ (sigmainv (mkPar f ext) E a b).1.steps ≤ Gen.TMExact.numit :=
+  ⟨zetainv_cap (mkPar f ext) E a b, sigmainv_cap (mkPar f ext) E a b⟩
+
+/-- **`zetainv` left through its convergence test** (over `ℝ`, every kernel): some Newton iterate `w_m`, `m + 2 ≤ numit_`, has a forward
+    image whose residual in the metric of the Newton step, `|dw/dζ|²·((τ'(w_m) − τ')²/(1 + τ'²) + (λ(w_m) − λ)²)`, is below
+    `tol2_/max(ψ, 1)²`, all earlier iterates had not, and the result is the iterate two Newton steps later.
+    Not proved (needs the analytic properties of the Jacobi functions, which are kernels here): that the loop does leave through this test. -/
+theorem tmx_zetainv_converged (p : Par ℝ) (E : Ell ℝ) (taup lam : ℝ) (hnd : (zStart p E taup lam).done = false)
+    (hb : (zetainv p E taup lam).1.brk = true) :
+    ∃ m, m + 2 ≤ p.numit ∧ (zetainv p E taup lam).1.steps = m + 2 ∧
+      (let w := iterate (zStep p E taup lam) m 0 ((zStart p E taup lam).u, (zStart p E taup lam).v)
+       let j := E.am m w.1 w.2
+       ((dwdzeta p j).1 ^ 2 + (dwdzeta p j).2 ^ 2) *
+         ((((zeta p j).1 - taup) * (1 / Real.sqrt (1 ^ 2 + taup ^ 2))) ^ 2 + ((zeta p j).2 - lam) ^ 2) < zThr p taup) ∧
+      (∀ m' < m, long (zStep p E taup lam) (zThr p taup) 0 ((zStart p E taup lam).u, (zStart p E taup lam).v) m' = true) ∧
+      ((zetainv p E taup lam).1.u, (zetainv p E taup lam).1.v) =
+        iterate (zStep p E taup lam) (m + 2) 0 ((zStart p E taup lam).u, (zStart p E taup lam).v) :=
+  zetainv_converged p E taup lam hnd hb
+
+/-- non-vacuity: a parameter set and a kernel (constant Jacobi values of the point `w = 0`) for which `zetainv` and `sigmainv` do leave
+    through the convergence test -/
+noncomputable def pEx : Par ℝ := ⟨0, 1, 0, 1, 1 / 1000, 1 / 100, 10, false⟩
+noncomputable def eEx : Ell ℝ := ⟨2, 2, 2, 1, fun _ _ _ => ⟨0, 1, 1, 0, 1, 1⟩, fun _ _ _ _ => (0, 0)⟩
+
+example : (zStart pEx eEx 0 0).done = false ∧ (zetainv pEx eEx 0 0).1.brk = true := by
+  have h : (zStart pEx eEx 0 0).done = false := by simp [zStart, zetainv0, pEx, eEx]
+  refine ⟨h, ?_⟩
+  rw [zetainv_unfold pEx eEx 0 0 h]
+  simp [newton, zStep, zetaStep, zeta, dwdzeta, zThr, pEx, eEx, atan2_zero_pos, Proofs.TMX.max_real]
+
+/-- **`sigmainv` left through its convergence test**: some Newton iterate `w_m` has `|dw/dσ|²·|σ(w_m) − (ξ + iη)|² < tol2_` -/
+theorem tmx_sigmainv_converged (p : Par ℝ) (E : Ell ℝ) (xi eta : ℝ) (hnd : (sigmainv0 p E xi eta).done = false)
+    (hb : (sigmainv p E xi eta).1.brk = true) :
+    ∃ m, m + 2 ≤ p.numit ∧ (sigmainv p E xi eta).1.steps = m + 2 ∧
+      (let w := iterate (sigmaStep p E xi eta) m 0 ((sigmainv0 p E xi eta).u, (sigmainv0 p E xi eta).v)
+       let j := E.am m w.1 w.2
+       let s := sigma p j w.2 (E.einc m w.1 w.2 j)
+       ((dwdsigma p j).1 ^ 2 + (dwdsigma p j).2 ^ 2) * ((s.1 - xi) ^ 2 + (s.2 - eta) ^ 2) < p.tol2) ∧
+      (∀ m' < m, long (sigmaStep p E xi eta) p.tol2 0 ((sigmainv0 p E xi eta).u, (sigmainv0 p E xi eta).v) m' = true) ∧
+      ((sigmainv p E xi eta).1.u, (sigmainv p E xi eta).1.v) =
+        iterate (sigmaStep p E xi eta) (m + 2) 0 ((sigmainv0 p E xi eta).u, (sigmainv0 p E xi eta).v) :=
+  sigmainv_converged p E xi eta hnd hb
+
+example : (sigmainv0 pEx eEx 0 0).done = false ∧ (sigmainv pEx eEx 0 0).1.brk = true := by
+  have h0 : sigmainv0 pEx eEx 0 0 = ⟨false, 0, 0, .plain⟩ := by
+    simp only [sigmainv0, pEx, eEx, ofDec_real, ltb_real]
+    norm_num
+  have h : (sigmainv0 pEx eEx 0 0).done = false := by rw [h0]
+  refine ⟨h, ?_⟩
+  rw [sigmainv_unfold pEx eEx 0 0 h, h0]
+  simp [newton, sigmaStep, sigma, dwdsigma, pEx, eEx]
+
+/-- **which way `Forward` obtains the Thompson coordinates** (every kernel, over `ℝ`): the pole case exactly for `lat = 90` (`u = K`, `v = 0`, `γ = lon`,
+    `k = 1`); the branch-point case exactly at the single point `lat = 0 ∧ lon − lon0 = 90(1 − e)` (`u = 0`, `v = K'`) — the comparison seeded change C06B
+    turned into `≥`; otherwise `(u, v) = zetainv(taupf(tan φ), λ)` with at most `numit_` steps -/
+theorem tmx_forward_cases (p : Par ℝ) (E : Ell ℝ) (lat lon tau : ℝ) :
+    let r := TMX.fwdKernel p E lat lon tau
+    (r.via = Via.pole ↔ lat = 90) ∧
+    (r.via = Via.branchPoint ↔ lat ≠ 90 ∧ lat = 0 ∧ lon = 90 * (1 - p.e)) ∧
+    (lat = 90 → r.u = E.Ku ∧ r.v = 0 ∧ r.gamma = lon ∧ r.k = 1) ∧
+    (lat ≠ 90 → lat = 0 → lon = 90 * (1 - p.e) → r.u = 0 ∧ r.v = E.Kv) ∧
+    (r.via = Via.newton → r.u = (zetainv p E (TM.taupf tau p.e) (lon * TMX.degree)).1.u ∧ r.v = (zetainv p E (TM.taupf tau p.e) (lon * TMX.degree)).1.v ∧
+      r.steps ≤ p.numit) :=
+  fwdKernel_cases p E lat lon tau
+
+/-- **`Reverse`**: the branch-point case exactly at `ξ = 0 ∧ η = K' − E'`, otherwise `(u, v) = sigmainv(ξ, η)`; the pole output (`lat = 90`,
+    `lon = γ = 0`, `k = 1`) exactly when the Thompson coordinates come out as `(K, 0)` -/
+theorem tmx_reverse_cases (p : Par ℝ) (E : Ell ℝ) (xi eta : ℝ) :
+    let r := TMX.revKernel p E xi eta
+    ((xi = 0 ∧ eta = E.KEv) → r.u = 0 ∧ r.v = E.Kv) ∧
+    (¬ (xi = 0 ∧ eta = E.KEv) → r.u = (sigmainv p E xi eta).1.u ∧ r.v = (sigmainv p E xi eta).1.v ∧ r.steps ≤ p.numit) ∧
+    (r.via = Via.pole ↔ (r.v = 0 ∧ r.u = E.Ku)) ∧
+    (r.via = Via.pole → r.p = 90 ∧ r.q = 0 ∧ r.gamma = 0 ∧ r.k = 1) :=
+  revKernel_cases p E xi eta
+
+/-! ## 6. exact form: the closed forms as coded are Lee's (1976), the Jacobi functions being abstract
+
+Mathlib has no Jacobi elliptic functions.  The six values `sn, cn, dn (u | e²)`, `sn, cn, dn (v | 1 − e²)` are arbitrary reals subject to
+`sn² + cn² = 1`, `dn² + k² sn² = 1` (`JacobiRel`; the harness checks these two relations on what `EllipticFunction::am` returns, op `tmxf`), and the
+functions of the complex argument `w = u + iv` are *defined* by the addition theorem (`snW, cnW, dnW`; A+S 16.21.2–4), for which the same two
+relations are proved to persist. -/
+
+/-- the complex values given by the addition theorem satisfy `sn² w + cn² w = 1`, `dn² w + e² sn² w = 1` -/
+theorem tmx_complex_jacobi (mu : ℝ) (j : Jac ℝ) (hj : JacobiRel mu j) (hD : denW mu j ≠ 0) :
+    snW mu j ^ 2 + cnW mu j ^ 2 = 1 ∧ dnW mu j ^ 2 + (mu : ℂ) * snW mu j ^ 2 = 1 :=
+  complex_jacobi_rel mu j hj hD
+
+/-- a concrete instance of `JacobiRel` (`e² = 1/4`, `sn u = 3/5`, `sn v = 4/5`; so the theorems below are not vacuous) -/
+noncomputable def jEx : Jac ℝ := ⟨3 / 5, 4 / 5, Real.sqrt (91 / 100), 4 / 5, 3 / 5, Real.sqrt (13 / 25)⟩
+example : JacobiRel (1 / 4) jEx ∧ denW (1 / 4) jEx ≠ 0 := by
+  refine ⟨⟨by norm_num [jEx], ?_, by norm_num [jEx], ?_⟩, by norm_num [jEx, denW]⟩
+  · simp only [jEx]; rw [Real.sq_sqrt (by norm_num)]; norm_num
+  · simp only [jEx]; rw [Real.sq_sqrt (by norm_num)]; norm_num
+
+/-- **`zeta`, real part = Lee 54.17**: `τ' = sinh ψ`, `ψ = atanh(sn u · dn v) − e·atanh(e · sn u / dn v)` (the code evaluates the two `atanh` as
+    `asinh(x/√(1 − x²))` with `1 − x²` rewritten by the Jacobi relations, and `sinh` of the difference without cancellation) -/
+theorem tmx_zeta_taup (p : Par ℝ) (hp : ParOK p) (j : Jac ℝ) (hj : JacobiRel p.mu j)
+    (hdn : 0 < j.dnv) (hx : |j.snu * j.dnv| < 1) (hy : |p.e * j.snu| < j.dnv) :
+    (zeta p j).1 = Real.sinh (artanh (j.snu * j.dnv) - p.e * artanh (p.e * j.snu / j.dnv)) :=
+  zeta_taup_lee p hp j hj hdn hx hy
+
+/-- non-vacuity: `e = 1/2` with the instance `jEx` -/
+noncomputable def pLee : Par ℝ := ⟨1 / 4, 3 / 4, 1 / 2, 1, 1, 1, 10, false⟩
+example : ParOK pLee ∧ 0 < jEx.dnv ∧ |jEx.snu * jEx.dnv| < 1 ∧ |pLee.e * jEx.snu| < jEx.dnv := by
+  have h1 : (18 / 25 : ℝ) < Real.sqrt (13 / 25) := by
+    rw [show (18 / 25 : ℝ) = Real.sqrt ((18 / 25) ^ 2) from (Real.sqrt_sq (by norm_num)).symm]
+    exact Real.sqrt_lt_sqrt (by norm_num) (by norm_num)
+  have h2 : Real.sqrt (13 / 25) < 1 := by
+    rw [show (1 : ℝ) = Real.sqrt 1 from Real.sqrt_one.symm]
+    exact Real.sqrt_lt_sqrt (by norm_num) (by norm_num)
+  refine ⟨⟨by norm_num [pLee], by norm_num [pLee], by norm_num [pLee]⟩, by simp only [jEx]; linarith, ?_, ?_⟩
+  · simp only [jEx]; rw [abs_lt]; constructor <;> nlinarith
+  · simp only [jEx, pLee]; rw [abs_lt]; constructor <;> linarith
+
+/-- **`zeta`, imaginary part = Lee 54.17**: `λ = arg(cn u cn v + i dn u sn v) − e·arg(dn u cn v + i e cn u sn v)` … -/
+theorem tmx_zeta_lam (p : Par ℝ) (j : Jac ℝ)
+    (h1 : Real.sqrt (RealLike.sq j.cnu + p.mv * RealLike.sq (j.snu * j.snv)) ≠ 0)
+    (h2 : Real.sqrt (p.mu * RealLike.sq j.cnu + p.mv * RealLike.sq j.cnv) ≠ 0) :
+    (zeta p j).2 = Complex.arg ⟨j.cnu * j.cnv, j.dnu * j.snv⟩ - p.e * Complex.arg ⟨j.dnu * j.cnv, p.e * j.cnu * j.snv⟩ :=
+  zeta_lam_lee p j h1 h2
+
+/-- … and these two arguments are `Im atanh(sn w)` and `Im atanh(e sn w)`: `(1 + s)·conj(1 − s)·D = (…)²` with `D = 1 − dn²u sn²v`, for
+    `s = sn w` and `s = e·sn w`; likewise `|1 + sn w|²(1 − x)² = |1 − sn w|²(1 + x)²`, `x = sn u dn v`, i.e. `Re atanh(sn w) = atanh(sn u dn v)` -/
+theorem tmx_zeta_is_lee_complex (e mu : ℝ) (he : e ^ 2 = mu) (j : Jac ℝ) (hj : JacobiRel mu j) (hD : denW mu j ≠ 0) :
+    (1 + snW mu j) * (starRingEnd ℂ) (1 - snW mu j) * (denW mu j : ℂ) = (⟨j.cnu * j.cnv, j.dnu * j.snv⟩ : ℂ) ^ 2 ∧
+    (1 + (e : ℂ) * snW mu j) * (starRingEnd ℂ) (1 - (e : ℂ) * snW mu j) * (denW mu j : ℂ) = (⟨j.dnu * j.cnv, e * j.cnu * j.snv⟩ : ℂ) ^ 2 ∧
+    Complex.normSq (1 + snW mu j) * (1 - j.snu * j.dnv) ^ 2 = Complex.normSq (1 - snW mu j) * (1 + j.snu * j.dnv) ^ 2 :=
+  ⟨lee_atanh_im mu j hj hD, lee_atanh_e_im e mu he j hj hD, lee_atanh_re mu j hj hD⟩
+
+/-- **`dwdzeta` = Lee 54.21 and `dwdsigma` = reciprocal of Lee 55.9**: the Newton Jacobians as coded are `cn w · dn w/(1 − e²)` and
+    `dn² w/(1 − e²)` (identities of rational functions in the six values) -/
+theorem tmx_jacobians (p : Par ℝ) (j : Jac ℝ) (hD : denW p.mu j ≠ 0) (hmv : p.mv ≠ 0) :
+    (⟨(dwdzeta p j).1, (dwdzeta p j).2⟩ : ℂ) = cnW p.mu j * dnW p.mu j / (p.mv : ℂ) ∧
+    (⟨(dwdsigma p j).1, (dwdsigma p j).2⟩ : ℂ) = dnW p.mu j ^ 2 / (p.mv : ℂ) :=
+  ⟨dwdzeta_lee p j hD hmv, dwdsigma_lee p j hD hmv⟩
+
+/-- the rewritings the comments of `sigma` and `Scale` announce (Lee 55.4, 55.13): `e² cn²u + (1 − e²) cn²v = dn²u + dn²v − 1` and
+    `(1 − e²) sn²v + cn²u dn²v = 1 − sn²u dn²v` -/
+theorem tmx_sigma_scale_rewrites (p : Par ℝ) (hp : ParOK p) (j : Jac ℝ) (hj : JacobiRel p.mu j) :
+    p.mu * RealLike.sq j.cnu + p.mv * RealLike.sq j.cnv = j.dnu ^ 2 + j.dnv ^ 2 - 1 ∧
+    p.mv * RealLike.sq j.snv + RealLike.sq (j.cnu * j.dnv) = 1 - j.snu ^ 2 * j.dnv ^ 2 :=
+  sigma_scale_rewrites p hp j hj
+
+
+/-! ## 7. the series kernel as coded (`TM.fwdKernel`, `TM.revKernel`, read at `ℝ`): the conformal map it is
+
+`F(ζ) = ζ + Σ_j α_j sin 2jζ`, `G(ζ) = ζ − Σ_j β_j sin 2jζ` with `α_j = _alp[j]`, `β_j = _bet[j]` *as the constructor computes them* from the tables
+extracted on this run (`alpOf f`, `nbetOf f`).  `ζ' = ξ' + iη'` are the Gauss–Schreiber coordinates as coded. -/
+open GeoVerif.Proofs.TMSeries GeoVerif.Proofs.TMCoeff
+
+/-- **(b) the second output of the complex Clenshaw pair is the complex derivative of the first**: `F'(ζ) = dF/dζ` — the pair the code uses for
+    position and for convergence/scale is Cauchy–Riemann consistent, for every coefficient vector -/
+theorem tm_kruger_derivative (cs : List ℝ) (ζ : ℂ) : HasDerivAt (krF cs) (krF' cs ζ) ζ := hasDerivAt_krF cs ζ
+
+/-- **(a) Gauss–Schreiber step = spherical transverse Mercator relations** (Krüger (25)): `cos ξ' = cos λ/h`, `sin ξ' = τ'/h`, `sinh η' = sin λ/h`,
+    `cosh η' = √(1 + τ'²)/h` (`h = hypot(τ', cos λ)`), hence `tan ξ' = τ'/cos λ`, `tanh η' = sin λ/√(1 + τ'²) = cos φ' sin λ` -/
+theorem tm_gauss_schreiber (τ' slam clam : ℝ) (hsc : slam ^ 2 + clam ^ 2 = 1) (hh : 0 < τ' ^ 2 + clam ^ 2) :
+    Real.cos (gsXi τ' clam) = clam / Real.sqrt (τ' ^ 2 + clam ^ 2) ∧ Real.sin (gsXi τ' clam) = τ' / Real.sqrt (τ' ^ 2 + clam ^ 2) ∧
+    Real.sinh (gsEta τ' slam clam) = slam / Real.sqrt (τ' ^ 2 + clam ^ 2) ∧
+    Real.cosh (gsEta τ' slam clam) = Real.sqrt (1 + τ' ^ 2) / Real.sqrt (τ' ^ 2 + clam ^ 2) ∧
+    Real.tan (gsXi τ' clam) = τ' / clam ∧ Real.tanh (gsEta τ' slam clam) = slam / Real.sqrt (1 + τ' ^ 2) :=
+  ⟨(gs_relations τ' slam clam hsc hh).1, (gs_relations τ' slam clam hsc hh).2.1, (gs_relations τ' slam clam hsc hh).2.2.1,
+   (gs_relations τ' slam clam hsc hh).2.2.2, (gs_tan τ' slam clam hsc hh).1, (gs_tan τ' slam clam hsc hh).2⟩
+
+example : (3 / 5 : ℝ) ^ 2 + (4 / 5) ^ 2 = 1 ∧ (0 : ℝ) < 2 ^ 2 + (4 / 5) ^ 2 := by norm_num
+
+/-- **(a) … in closed form**: with `ψ = asinh τ'` the isometric latitude of the conformal sphere and `w = ψ + iλ` its Mercator coordinate,
+    `sin ζ' = tanh w` and `cos ζ' · cosh w = 1`, i.e. `ζ' = gd(w)` (the transverse Mercator projection of the sphere); and the complex number whose
+    `atan2` and `hypot` `Forward` forms for the Gauss–Schreiber convergence and scale is `cosh w = (dζ'/dw)⁻¹` -/
+theorem tm_gauss_schreiber_sphere (τ' l : ℝ) (hh : 0 < τ' ^ 2 + Real.cos l ^ 2) :
+    Complex.sin ⟨gsXi τ' (Real.cos l), gsEta τ' (Real.sin l) (Real.cos l)⟩ = Complex.tanh ⟨Real.arsinh τ', l⟩ ∧
+    Complex.cos ⟨gsXi τ' (Real.cos l), gsEta τ' (Real.sin l) (Real.cos l)⟩ * Complex.cosh ⟨Real.arsinh τ', l⟩ = 1 ∧
+    gamma0 τ' (Real.sin l) (Real.cos l) = Complex.arg (Complex.cosh ⟨Real.arsinh τ', l⟩) * (TM.deg : ℝ) ∧
+    Real.sqrt (τ' ^ 2 + Real.cos l ^ 2) = ‖Complex.cosh ⟨Real.arsinh τ', l⟩‖ :=
+  ⟨(gs_is_sphere_tm τ' l hh).1, (gs_is_sphere_tm τ' l hh).2, (gs_gamma_k τ' l).1, (gs_gamma_k τ' l).2⟩
+
+example : (0 : ℝ) < 1 ^ 2 + Real.cos 0 ^ 2 := by norm_num
+
+/-- **(b) … and `1/cosh w` is the derivative of the Gauss–Schreiber map**: every differentiable `Z` with `sin Z = tanh` near `w` and
+    `cos Z(w)·cosh w = 1` (both hold for `ζ'` as coded, previous theorem) has `dZ/dw = 1/cosh w`; so `γ' = −arg(dζ'/dw)` (in degrees) and
+    `k' = (√(1 − e² sin²φ)/cos φ)·|dζ'/dw|`, and with `tm_forward_kernel` the returned convergence and scale are `−arg` and `|·|` (times the
+    scale of the Mercator coordinate `w`) of the derivative of the whole map `w ↦ ζ' ↦ ζ`, times `b1` -/
+theorem tm_gauss_schreiber_derivative (Z : ℂ → ℂ) (w Z' : ℂ) (hZ : HasDerivAt Z Z' w)
+    (hs : ∀ᶠ v in nhds w, Complex.sin (Z v) = Complex.tanh v) (hc : Complex.cos (Z w) * Complex.cosh w = 1) :
+    Z' = 1 / Complex.cosh w :=
+  gs_derivative Z w Z' hZ hs hc
+
+/-- the hypotheses are the two identities `tm_gauss_schreiber_sphere` establishes for `ζ'` as coded at every real `(ψ, λ)`; an explicit differentiable
+    complex branch `Z` is not constructed here (at `w = 0`, `Z(0) = 0`, the pointwise hypotheses read as below) -/
+example : Complex.cos 0 * Complex.cosh 0 = 1 ∧ Complex.sin 0 = Complex.tanh 0 := by simp
+
+/-- **(b) `Forward` (first quadrant, not the pole) as coded**: `ξ + iη = F(ζ')`, `γ = γ' − arg F'(ζ')` (degrees), `k = k'·b1·|F'(ζ')|`, with `γ'`, `k'`
+    the Gauss–Schreiber values as coded — convergence and scale are the rotation and magnification of the composed map -/
+theorem tm_forward_kernel (f lon sphi cphi slam clam : ℝ) :
+    let τ' := taupOf f sphi cphi
+    let ζ' : ℂ := ⟨gsXi τ' clam, gsEta τ' slam clam⟩
+    let r := fwdKernel f false lon sphi cphi slam clam
+    (⟨r.p, r.q⟩ : ℂ) = krF (alpOf f) ζ' ∧
+    r.gamma = gamma0 τ' slam clam - Complex.arg (krF' (alpOf f) ζ') * (TM.deg : ℝ) ∧
+    r.k = k0GS f sphi cphi τ' clam * (b1 (nOf f) * ‖krF' (alpOf f) ζ'‖) :=
+  fwd_kernel_spec f lon sphi cphi slam clam
+
+/-- **(b) `Reverse` (first quadrant) as coded**: `ζ' = G(ζ)`; off the pole image `lat = atan τ`, `τ = tauf(sin ξ'/r)`, `lon = atan2(sinh η', cos ξ')`,
+    `γ = arg G'(ζ) + atan2(sin ξ' tanh η', cos ξ')`, `k = b1/|G'(ζ)|·k'`; at the pole image (`r = 0`) `lat = 90`, `k = b1/|G'|·_c` -/
+theorem tm_reverse_kernel (f ξ η : ℝ) :
+    let ζ : ℂ := ⟨ξ, η⟩
+    let ζ' := krF (nbetOf f) ζ
+    let r := revKernel f ξ η
+    let s := Real.sinh ζ'.im
+    let c := max 0 (Real.cos ζ'.re)
+    let h := Real.sqrt (s ^ 2 + c ^ 2)
+    (h ≠ 0 →
+      let τ := tauf (Real.sin ζ'.re / h) (esOf f)
+      r.p = Complex.arg ⟨1, τ⟩ * (TM.deg : ℝ) ∧ r.q = Complex.arg ⟨c, s⟩ * (TM.deg : ℝ) ∧
+      r.gamma = Complex.arg (krF' (nbetOf f) ζ) * (TM.deg : ℝ) + Complex.arg ⟨c, Real.sin ζ'.re * (s / TM.cosh ζ'.im)⟩ * (TM.deg : ℝ) ∧
+      r.k = b1 (nOf f) / ‖krF' (nbetOf f) ζ‖ *
+        (Real.sqrt ((1 - e2Of f) + e2Of f / (1 + τ * τ)) * Real.sqrt (1 ^ 2 + τ ^ 2) * h)) ∧
+    (h = 0 → r.p = 90 ∧ r.q = 0 ∧ r.gamma = Complex.arg (krF' (nbetOf f) ζ) * (TM.deg : ℝ) ∧ r.k = b1 (nOf f) / ‖krF' (nbetOf f) ζ‖ * cOf f) :=
+  rev_kernel_spec f ξ η
+
+/-- **(c) `Reverse` after `Forward` on the series step is the composition `G ∘ F`** (exactly, over `ℂ`, as coded): feeding the `(ξ, η)` returned by the
+    Krüger step of `Forward` into the Krüger step of `Reverse` returns `G(F(ζ'))`.  That `G ∘ F` and `F ∘ G` are the identity modulo `n⁷` *as
+    trigonometric series in `ζ'`* (all harmonics, Taylor substitution of the inner series) is what `alp_bet_revert` / `bet_alp_revert` certify on the
+    extracted tables, for the polynomials whose values at `n` these coefficients are (`tm_coeffs_eval`); so `Reverse(Forward) = id + O(n⁷)` formally.
+    Not proved: a bound of the `O(n⁷)` remainder over `ℝ` (the nanometre figures come from the oracle). -/
+theorem tm_reverse_of_forward_series (f ξ' η' : ℝ) :
+    let z := (kr (alpOf f) ξ' η').1
+    toC (kr (nbetOf f) z.re z.im).1 = krF (nbetOf f) (krF (alpOf f) ⟨ξ', η'⟩) := by
+  intro z
+  rw [(kr_value (nbetOf f) z.re z.im).1, ← (kr_value (alpOf f) ξ' η').1]
+  rfl
+
+/-- **(d) `η = 0 ⇔ λ = 0`** (first quadrant, not the pole), wherever the derivative series `Σ_j 2j|α_j| cosh 2jη'` stays below 1 -/
+theorem tm_eta_zero_iff (f lon sphi cphi slam clam : ℝ) (hh : 0 < (taupOf f sphi cphi) ^ 2 + clam ^ 2)
+    (hs : absD (gsEta (taupOf f sphi cphi) slam clam) 0 (alpOf f) < 1) :
+    (fwdKernel f false lon sphi cphi slam clam).q = 0 ↔ slam = 0 :=
+  fwd_eta_zero_iff f lon sphi cphi slam clam hh hs
+
+/-- non-vacuity: on the sphere (`f = 0`) every `α_j` the constructor computes is `0`, the derivative series vanishes, and the hypotheses hold -/
+example (η : ℝ) : (0 : ℝ) < (taupOf 0 0 1) ^ 2 + 1 ^ 2 ∧ absD η 0 (alpOf 0) < 1 := by
+  refine ⟨by positivity, ?_⟩
+  have h0 : nOf (0 : ℝ) = 0 := by simp [nOf]
+  have : alpOf 0 = List.replicate TM.N 0 := by unfold alpOf; rw [h0]; exact coeffs_zero _
+  rw [this]
+  have hz : ∀ (m k : ℕ), absD η k (List.replicate m 0) = 0 := by
+    intro m; induction m with
+    | zero => intro k; rfl
+    | succ m ih => intro k; simp [List.replicate_succ, absD, ih]
+  rw [hz]; norm_num
+
+/-- **(d) central meridian**: `η = 0` and `ξ = χ + Σ_j α_j sin 2jχ`, `χ = atan τ'` the conformal latitude, so `y = k0·a·b1·(χ + Σ α_j sin 2jχ)`
+    (`_a1 = a·b1`, wrapper theorem `tm_forward_canonical`); where `dξ/dχ = 1 + Σ 2jα_j cos 2jχ ≥ 0` also `γ = 0` and `k = k'·b1·dξ/dχ` -/
+theorem tm_central_meridian (f lon sphi cphi : ℝ) :
+    let τ' := taupOf f sphi cphi
+    let χ := Real.arctan τ'
+    let r := fwdKernel f false lon sphi cphi 0 1
+    r.q = 0 ∧ r.p = χ + sinSeries χ 0 (alpOf f) ∧
+    (0 ≤ 1 + dcosSeries χ 0 (alpOf f) →
+      r.gamma = 0 ∧ r.k = k0GS f sphi cphi τ' 1 * (b1 (nOf f) * (1 + dcosSeries χ 0 (alpOf f)))) :=
+  fwd_central_meridian f lon sphi cphi
+
+/-- **`_alp[l]`, `_bet[l]` as computed are the values at `n` of the certified polynomials**: for every table, `l = i + 1 ≤ N` and real `n`,
+    `(coeffs tbl n)[i] = ev (blockPoly tbl (i + 1)) n`, `blockPoly` = the truncated power series of the certificates (`tmBlock`) -/
+theorem tm_coeffs_eval (tbl : List Rat) (n : ℝ) (i : ℕ) (hi : i < TM.N) :
+    (coeffs tbl n).getD i 0 = ev (blockPoly tbl (i + 1)) n ∧ blockPoly tbl (i + 1) = tmBlock tbl (i + 1) :=
+  ⟨coeffs_eval tbl n i hi, rfl⟩
+
+example : (0 : ℕ) < TM.N := by decide
+
+/-- *Gen* — the polynomials of `alpcoeff` / `−betcoeff` **are** (as coefficient lists) the `μ ← χ` / `χ ← μ` polynomials decoded from the
+    `AuxLatitude` table (both extracted from the source on this run) -/
+theorem alp_is_aux_list :
+    (∀ i, i < TM.N → tmBlock Gen.TMSeries.alpcoeff (i + 1) = (AuxDecode.block Gen.AuxSeries.RECTIFYING Gen.AuxSeries.CONFORMAL).getD i []) ∧
+    (∀ i, i < TM.N → Poly.smul (-1) (tmBlock Gen.TMSeries.betcoeff (i + 1)) = (AuxDecode.block Gen.AuxSeries.CONFORMAL Gen.AuxSeries.RECTIFYING).getD i []) := by
+  decide +kernel
+
+/-- **(d) the northing on the central meridian is the rectifying-latitude series certified in C15** (*Gen*): the coefficients `α_j` in
+    `ξ = χ + Σ α_j sin 2jχ` (`tm_central_meridian`) are the values at `n = f/(2 − f)` of the `μ ← χ` polynomials of `AuxLatitude.cpp`, which the C15
+    obligations (`chi_ode`, `mu_beta_table`, `aux_revert`, `aux_compose_partial`) tie to the defining relations of the conformal and rectifying
+    latitudes modulo `n⁷`; hence `y/k0 = a·b1·μ(χ)` in the series sense, `a·b1·π/2` being the quarter meridian (`b1_table`) -/
+theorem tm_central_meridian_is_rectifying (f : ℝ) (i : ℕ) (hi : i < TM.N) :
+    (alpOf f).getD i 0 = ev ((AuxDecode.block Gen.AuxSeries.RECTIFYING Gen.AuxSeries.CONFORMAL).getD i []) (nOf f) := by
+  rw [← alp_is_aux_list.1 i hi]
+  exact coeffs_eval Gen.TMSeries.alpcoeff (nOf f) i hi
 
 end GeoVerif.Props.C06
